@@ -11,6 +11,9 @@ DIRS = {"input": "IN", "output": "OUT", "inout": "INOUT"}
 def ident(r, used, esc_rate=0.1):
     for _ in range(200):
         s = r.choice("abcdnqsxyABQ") + "".join(r.choice("abcxyz019_") for _ in range(r.randint(0, 4)))
+        if r.random() < 0.06:
+            # the names synthesis tools hand out: underscores and digits only (_05_, _12_, _0)
+            s = "_" + "".join(r.choice("0123456789") for _ in range(r.randint(1, 3))) + r.choice(["_", "_", ""])
         if r.random() < esc_rate:
             s = "\\" + s + r.choice(["", "[0]", ".x", "/y", "$"])
         key = s[1:] if s.startswith("\\") else s     # \\abc and abc are the same Verilog identifier
